@@ -54,9 +54,20 @@ def sig_c15(spec):
     (exact sum / max-min outside int64), everything else is unlisted"""
     return "F-C15-overflow" if spec.startswith("!overflow:") else None
 
+def enum_rp(tier):
+    """every op sequence of length 3 (quick) / 4 (thorough) over AddDuration (2 durations) / SnapshotAt x 6 boundary
+    timestamps, for 2 buckets of width 10 holding 1 or 2 samples"""
+    import itertools
+    ts = [-1, 0, 9, 10, 20, 35]
+    alphabet = ["add %d %d" % (d, t) for d in (7, 3) for t in ts] + ["snap %d" % t for t in ts]
+    L = 3 if tier == "quick" else 4
+    for size in (1, 2):
+        for seq in itertools.product(alphabet, repeat=L):
+            yield "rp n=2 w=10 size=%d" % size, list(seq) + ["snap 35"]
+
 PROPS["C15"] = {
-    "components": [Seq("rp", 1500, 50000), Seq("sd", 1500, 100000, signature=sig_c15)],
-    "rule": "rp: random AddDuration/SnapshotAt/Reset sequences with boundary-directed timestamps and bucket capacities 0..5 (overflowing); non-trivial = window rolled AND (a bucket overflowed OR a backwards/stale/pre-start time). "
+    "components": [Seq("rp", 1500, 50000, enum=enum_rp), Seq("sd", 1500, 100000, signature=sig_c15)],
+    "rule": "rp: random AddDuration/SnapshotAt/Reset sequences with boundary-directed timestamps and bucket capacities 0..5 (overflowing); non-trivial = window rolled AND (a bucket overflowed OR a backwards/stale/pre-start time); plus a COMPLETE enumeration of a small scope on every run (all sequences of length 3 / 4 over AddDuration x 2 durations / SnapshotAt x 6 boundary timestamps, 2 buckets of capacity 1 and 2). "
             "sd: independent Percentile/Mean/Min/Max/Var queries on sorted samples, p as raw binary64 bits (fixed, uniform, +-ulp neighbours of integral indices, extremes, random bits); non-trivial = not a fixed-p-only case. distinct by FNV hash",
     "trusted_base": TB_COMMON + ["modelled not verified: IEEE-754 binary64 round-to-nearest-even as exact rationals (CircuitModel/F64.lean, compared bit-for-bit with Go on every run through the sd suite), no FMA contraction on amd64, sort.Slice sorts, expvar/time.ParseDuration round-trip of duration strings"],
     "assumptions": ["p is not NaN (Go's int(NaN) is unspecified)", "percentile/mean bounds are claimed for samples whose exact sum and max-min stay inside int64 (outside: finding F-C15-overflow)"],
@@ -127,10 +138,32 @@ _circuit_prop("C09", ["fan"], "")
 
 
 
+def enum_opener(tier):
+    """every op sequence of length 3 (quick) / 4 (thorough) over success / failure / ShouldOpen / Opened x 6 boundary
+    timestamps on a hystrix opener with 2 buckets of width 10, 50 %, volume 2"""
+    import itertools
+    ts = [0, 9, 10, 19, 20, 30]
+    alphabet = ["%s %d" % (o, t) for o in ("ev success", "ev failure", "should", "opened") for t in ts]
+    L = 3 if tier == "quick" else 4
+    for seq in itertools.product(alphabet, repeat=L):
+        yield "opener kind=hystrix n=2 dur=20 pct=50 vol=2 base=future", list(seq) + ["should 30"]
+
+def enum_closer(tier):
+    """every op sequence of length 2 (quick) / 3 (thorough) over Opened / Allow / success / failure / ShouldClose x 5
+    timestamps + 2 callback firings, sleep window 10, HalfOpenAttempts and Required in {1,2}"""
+    import itertools
+    ts = [0, 5, 10, 11, 20]
+    alphabet = ["%s %d" % (o, t) for o in ("opened", "allow", "ev success", "ev failure", "shouldclose") for t in ts] + ["fire 0", "fire 1"]
+    L = 2 if tier == "quick" else 3
+    for half in (1, 2):
+        for req in (1, 2):
+            for seq in itertools.product(alphabet, repeat=L):
+                yield "closer sleep=10 half=%d req=%d" % (half, req), list(seq) + ["allow 25", "shouldclose 25", "view"]
+
 PROPS["C02"] = {
-    "components": [Seq("opener", 2500, 100000), CircuitSeq("C02", ["ev:opened"], 800, 30000)],
+    "components": [Seq("opener", 2500, 100000, enum=enum_opener), CircuitSeq("C02", ["ev:opened"], 800, 30000)],
     "rule": "opener: event sequences on hystrix.Opener / ConsecutiveErrOpener with boundary-directed (errors, attempts, pct, volume): 60% exact-percentage boundaries 100*e = pct*a nudged by -1/0/+1, "
-            "plus idle gaps, partial and full window roll-over, transitions, neutral kinds, live threshold changes, non-monotonic probes; non-trivial = at least one of those features; distinct by FNV hash. "
+            "plus idle gaps, partial and full window roll-over, transitions, neutral kinds, live threshold changes, non-monotonic probes; non-trivial = at least one of those features; distinct by FNV hash; plus a COMPLETE enumeration of a small scope on every run (all sequences of length 3 / 4 over success / failure / ShouldOpen / Opened x 6 boundary timestamps). "
             "circuit: the shared circuit histories with the built-in openers (fields ev, open)",
     "trusted_base": TB_COMMON + ["modelled not verified: sequential atomics; the hystrix opener's start time pinned to the clock origin by the harness"],
     "assumptions": ["the iff theorem is stated for non-negative, non-decreasing timestamps (one unambiguous window); other orders are covered by the model correspondence only"],
@@ -140,9 +173,9 @@ def sig_c03(spec):
     return "F-C03-stale" if spec.startswith("!stale:") else None
 
 PROPS["C03"] = {
-    "components": [Seq("closer", 2500, 100000, signature=sig_c03), CircuitSeq("C03", ["ev:closed"], 1500, 60000)],
+    "components": [Seq("closer", 2500, 100000, signature=sig_c03, enum=enum_closer), CircuitSeq("C03", ["ev:closed"], 1500, 60000)],
     "rule": "closer: op sequences on hystrix.Closer (Opened/Closed, Allow with timestamps at the window end +-1 / stale / ahead, run events of all kinds, ShouldClose, timer callbacks incl. stale ones, live SleepWindow/HalfOpenAttempts/Required changes); "
-            "non-trivial = a callback fired AND a transition AND an admission attempt at the window boundary or with a stale reading. circuit: shared circuit histories judged by the C03 book (sleep window, span bound, closing rule) when the closer is hystrix",
+            "non-trivial = a callback fired AND a transition AND an admission attempt at the window boundary or with a stale reading; plus a COMPLETE enumeration of a small scope on every run (all sequences of length 2 / 3 over Opened / Allow / success / failure / ShouldClose x 5 timestamps + 2 callback firings, budgets and required counts in {1,2}). circuit: shared circuit histories judged by the C03 book (sleep window, span bound, closing rule) when the closer is hystrix",
     "trusted_base": TB_CIRCUIT + ["timer callbacks as explicit environment steps (injected AfterFunc)"],
     "assumptions": ["the literal span bound for budgets >= 2 is claimed only when start readings reach the gate in non-decreasing order (otherwise: finding F-C03-stale)"],
 }
